@@ -88,7 +88,13 @@ func runConc(line string, t []string) string {
 	if len(t) == 0 {
 		return "bad-op"
 	}
+	if concWedged && !(t[0] == "seq" && len(t) > 1 && (t[1] == "reset" || t[1] == "acct" || t[1] == "end" || t[1] == "slowdb")) && t[0] != "cgf" {
+		// a batch did not return (deadlock): whatever is sent now may block for ever (conc_cgf.go)
+		return "skipped"
+	}
 	switch t[0] {
+	case "cgf":
+		return runCgf(t[1:]) // conc_cgf.go
 	case "seq":
 		if len(t) < 2 {
 			return "bad-op"
@@ -127,6 +133,7 @@ func runConc(line string, t []string) string {
 		case <-fin:
 		case <-time.After(20 * time.Second):
 			concQueue = nil
+			concWedged = true
 			return fmt.Sprintf("done=0 n=%d", k)
 		}
 		var rs []string
@@ -288,7 +295,38 @@ func genHammers(o genOpts, w *bufio.Writer, families ...string) {
 	}
 }
 
+// CDR transfer to the billing domain (cgf enabled): requests while the FTP control connection is up, after the billing domain
+// has dropped it, and while the billing domain is unreachable.  One request at a time (deadline of a batch: 20 s): what is
+// looked for is a transfer that blocks its request, and with it every later one.  A stream of its own (-mode cgf), run on the
+// build WITHOUT the race detector: see pending_findings/C09-cgf-unlocked-conn.
+func genCgf(o genOpts, w *bufio.Writer) {
+	r := &rng{s: o.seed ^ 0x636766}
+	lsn := 100000
+	one := func(k int, phase string) {
+		supi := fmt.Sprintf("imsi-20898%04d%03d%03d", o.seed%10000, k, r.intn(1000))
+		fmt.Fprintf(w, "conc seq reset\n")
+		fmt.Fprintf(w, "conc seq acct %s 1 %s %s\n", hexOf([]byte(supi)), hexOf([]byte("100000")), hexOf([]byte("2")))
+		fmt.Fprintf(w, "conc cgf %s\n", phase)
+		fmt.Fprintf(w, "conc par create %s\n", fmtReq(supi, "smf", 100, 0, 0, 0, nil, nil))
+		fmt.Fprintf(w, "conc go\n")
+		fmt.Fprintf(w, "conc fu\n")
+	}
+	fmt.Fprintf(w, "conc cgf up\n")
+	k := 0
+	for _, phase := range []string{"up", "drop", "up", "down", "up", "drop"} {
+		k++
+		one(k, phase)
+		_ = lsn
+	}
+	fmt.Fprintf(w, "conc cgf off\n")
+}
+
 func genConc(o genOpts, w *bufio.Writer) {
+	if o.mode == "cgf" {
+		genCgf(o, w)
+		fmt.Fprintf(w, "conc seq end\n")
+		return
+	}
 	if _, ok := hammerFamilies[o.mode]; ok {
 		genHammers(o, w, o.mode)
 		fmt.Fprintf(w, "conc seq end\n")
